@@ -115,7 +115,7 @@ class Executor:
             return True
         self.feas_checks += 1
         s = z3.Solver()
-        s.set("timeout", 1500)
+        s.set("timeout", 4000)
         s.add(*st.pc)
         from .smt import instantiate_axioms
 
@@ -1407,6 +1407,15 @@ class Executor:
 
     def st_ImportFrom(self, node, st):
         for al in node.names:
+            if node.module is None and node.level == 1:
+                # `from . import sibling` inside a function: the sibling module of the package the function lives in
+                pkg = self.frame.module.modname.rsplit(".", 1)[0]
+                try:
+                    extract.load(f"{pkg}.{al.name}")
+                except Exception:
+                    raise Unsupported(f"from . import {al.name}: no such module in {pkg}")
+                st.locals[al.asname or al.name] = SV(FUNCT, ModuleD(f"{pkg}.{al.name}"))
+                continue
             full = f"{node.module}.{al.name}"
             if full in self.w.externals:
                 st.locals[al.asname or al.name] = SV(FUNCT, ExternD(full))
